@@ -124,8 +124,8 @@ static Polyhedron* make_poly1(Rng& r, bool nnc, dimension_type n, unsigned state
 }
 
 static const char* OPS[] = { "affine_image", "affine_preimage", "embed", "project", "remove", "remove_higher",
-  "map", "expand", "fold", "concat", "intersection", "hull", "time_elapse", "closure", "unconstrain" };
-static const unsigned NOPS = 15;
+  "map", "expand", "fold", "concat", "intersection", "hull", "time_elapse", "closure", "unconstrain", "gen_affine_image" };
+static const unsigned NOPS = 16;
 
 static void one_case(long id, uint64_t seed, long maxdim, long only_op) {
   Rng r(seed * 1000003ull + (uint64_t) id * 7919ull + 17);
@@ -206,6 +206,14 @@ static void one_case(long id, uint64_t seed, long maxdim, long only_op) {
     case 9: case 10: case 11: case 12: {
       dimension_type ny = (op == 9) ? (dimension_type) r.range(r.chance(1, 10) ? 0 : 1, 2) : n;
       unsigned ys = r.below(7); if (r.chance(1, 12)) ys = 5;
+      // concatenation / intersection work on constraints: bias both operands towards states that hold them
+      if (op <= 10 && r.chance(2, 3)) {
+        static const unsigned cstates[] = { 0, 2, 3, 6 };
+        ys = cstates[r.below(4)];
+        if (x->marked_empty() || !x->constraints_are_up_to_date() || x->has_pending_generators()) {
+          delete x; x = make_poly(r, nnc, n, cstates[r.below(4)]);
+        }
+      }
       // hull / time-elapse work on generators: bias both operands towards states that hold them
       if (op >= 11 && r.chance(2, 3)) {
         static const unsigned gstates[] = { 1, 2, 4, 6 };
@@ -224,6 +232,18 @@ static void one_case(long id, uint64_t seed, long maxdim, long only_op) {
     case 13: {
       o << " X"; dump_poly(o, *x);
       x->topological_closure_assign();
+      break; }
+    case 15: {
+      if (n == 0) { n = 1; delete x; x = make_poly(r, nnc, n, state); }
+      dimension_type v = r.below((unsigned) n);
+      Linear_Expression e = rnd_expr(r, n, 3, false);
+      if (r.chance(1, 2) && e.coefficient(Variable(v)) == 0) e += Coefficient(r.chance(1, 2) ? r.range(1, 3) : r.range(-3, -1)) * Variable(v);
+      Coefficient d = r.chance(1, 2) ? 1 : (r.chance(1, 2) ? r.range(2, 3) : r.range(-3, -1));
+      static const Relation_Symbol rs[] = { LESS_OR_EQUAL, GREATER_OR_EQUAL, EQUAL, LESS_THAN, GREATER_THAN };
+      Relation_Symbol rel = rs[(nnc && r.chance(1, 4)) ? 3 + r.below(2) : (r.chance(1, 8) ? 2 : r.below(2))];
+      o << " " << v << " " << relsym_str(rel) << " " << d; put_expr(o, e, n);
+      o << " X"; dump_poly(o, *x);
+      x->generalized_affine_image(Variable(v), rel, e, d);
       break; }
     default: {
       Variables_Set vs;
